@@ -1,8 +1,9 @@
 (* C17 property theorems. Nothing but statements closed by [exact]. *)
-From OIDC Require Import Lib C17_RP C17_spec C17_proofs.
+From OIDC Require Import Lib C17_RP C17_Construct C17_spec C17_proofs.
 
 (* The model's answer satisfies the property predicate on every input: every
-   configuration, S256 table, initial jar and history of operations. *)
+   way of building the RP (constructor, option list, discovery document), S256
+   table, initial jar and history of operations. *)
 Theorem C17_spec_sound : forall i, spec i (model i) = true.
 Proof. exact spec_model_true. Qed.
 Print Assumptions C17_spec_sound.
@@ -90,14 +91,73 @@ Theorem C17_auth_url : forall H cfg s v,
 Proof. exact auth_url. Qed.
 Print Assumptions C17_auth_url.
 
+(* ---- the constructors: rp.NewRelyingPartyOAuth / rp.NewRelyingPartyOIDC ---- *)
+
+(* Whatever the constructor, the option list and the OP's discovery document: the
+   RP that is built is the RP the application configured ([intended]: PKCE iff a
+   WithPKCE option was passed, the cookie handler of the last option that sets
+   one, JWT profile iff WithJWTProfile, client / redirect URI / scopes as given,
+   the given or discovered authorization endpoint). *)
+Theorem C17_constructed_as_configured : forall s cfg, intended s = Some cfg -> construct s = cfg.
+Proof. exact construct_intended. Qed.
+Print Assumptions C17_constructed_as_configured.
+
+Theorem C17_constructor_pkce : forall s, c_pkce (construct s) = pkce_enabled (s_opts s).
+Proof. exact constructor_pkce. Qed.
+Print Assumptions C17_constructor_pkce.
+
+(* Two discovery documents with the same authorization endpoint - whatever they
+   announce as code_challenge_methods_supported, scopes_supported,
+   response_types_supported, grant_types_supported,
+   token_endpoint_auth_methods_supported - give the same RP, and it is the RP that
+   NewRelyingPartyOAuth builds for that endpoint. *)
+Theorem C17_discovery_irrelevant : forall opts cl rd sc ex d d',
+  d_auth d = d_auth d' ->
+  construct (Setup (NewOIDC d) opts cl rd sc ex) = construct (Setup (NewOIDC d') opts cl rd sc ex)
+  /\ construct (Setup (NewOIDC d) opts cl rd sc ex) = construct (Setup (NewOAuth (d_auth d)) opts cl rd sc ex).
+Proof. exact discovery_irrelevant. Qed.
+Print Assumptions C17_discovery_irrelevant.
+
+(* WithPKCE passed (anywhere in the option list), any constructor, any document:
+   every login sets the pkce cookie for v and its URL carries H v with S256;
+   every token request of a callback carries the value of the jar's pkce cookie
+   minted under the RP's key. *)
+Theorem C17_pkce_any_constructor : forall H s,
+  pkce_enabled (s_opts s) = true ->
+  (forall st v, exists cs ps,
+      start_login H (construct s) st v = EvAuth cs (endpoint (s_ctor s)) ps
+      /\ In (pkce_cookie (construct s) v) cs
+      /\ plookup "code_challenge" ps = Some (H v)
+      /\ plookup "code_challenge_method" ps = Some "S256")
+  /\ (forall j q ok h reqs cs r,
+      callback (construct s) j q ok = EvCb h reqs cs -> In r reqs ->
+      exists v, t_verifier r = Some v
+                /\ jar_get "pkce" j = Some (Mac (c_key (construct s)) "pkce" v)).
+Proof. exact pkce_any_constructor. Qed.
+Print Assumptions C17_pkce_any_constructor.
+
+(* [spec] is not vacuous on the constructor dimension: for an RP built WithPKCE by
+   the discovery constructor against an OP announcing only "plain" it rejects a
+   login answered with the plain code flow and a token request without
+   code_verifier, and accepts the model's answer. *)
+Theorem C17_spec_rejects_pkce_fallback :
+  spec (Inp fallback_setup [("va", "ha")] [] [OStart "a" ""]) (Obs [fallback_login]) = false
+  /\ spec (Inp fallback_setup [("va", "ha")] [("state", Mac 0 "state" "a"); ("pkce", Mac 0 "pkce" "va")]
+               [OCallback [("code", "c"); ("state", "a")] true true]) (Obs [fallback_callback]) = false
+  /\ spec (Inp fallback_setup [("va", "ha")] [] [OStart "a" "va"])
+          (model (Inp fallback_setup [("va", "ha")] [] [OStart "a" "va"])) = true.
+Proof. exact spec_rejects_fallback. Qed.
+Print Assumptions C17_spec_rejects_pkce_fallback.
+
 (* Limit of C17_pkce_bound (why [honest] is there): replaying a validly minted
    state cookie of an older login next to the newer login's pkce cookie makes
    the strong clause false; the property predicate (which then only demands
    "the verifier is the one stored in the pkce cookie") still holds. *)
 Theorem C17_pkce_replay_limit :
-  honest replay_cfg [] replay_ops = false
+  construct replay_setup = replay_cfg
+  /\ honest replay_cfg [] replay_ops = false
   /\ spec_run (hfun replay_tab) replay_cfg true [] [] replay_ops (run (hfun replay_tab) replay_cfg [] replay_ops) = false
-  /\ spec (Inp replay_cfg replay_tab [] replay_ops) (model (Inp replay_cfg replay_tab [] replay_ops)) = true.
+  /\ spec (Inp replay_setup replay_tab [] replay_ops) (model (Inp replay_setup replay_tab [] replay_ops)) = true.
 Proof. exact replay_limit. Qed.
 Print Assumptions C17_pkce_replay_limit.
 
